@@ -442,11 +442,10 @@ def get_confirmed_edges_for_node(graph: nx.MultiDiGraph, node: DSGNode, include_
     for tgt_node, src_node in _traversed_to_update:
         _traversed[tgt_node].update(_traversed[src_node])
 
-    # Update cache only if this was the originally-requested start node
+    # Update cache only if this was the originally-requested start node, and only for this node: the edge sets of the
+    # other traversed nodes can be incomplete if they are part of several loops or were reached via cross-edges
     if conf_edges_cache is not None and is_request_start:
-        for start_node, edges in _traversed.items():
-            if start_node not in conf_edges_cache:
-                conf_edges_cache[start_node] = edges
+        conf_edges_cache[node] = confirmed_edges.copy()
 
     return confirmed_edges
 
